@@ -51,42 +51,51 @@ IncludesExact(W, p, q) == NoPfx(q) \in PageAt(W, p).uses
 
 \* x = TRUE: the as-is matching, x = FALSE: what the property demands
 Inc(W, x, p, q) == IF x THEN IncludesExact(W, p, q) ELSE Includes(W, p, q)
+\* the inclusion relation {<<includer, included>>} and the redirect relation
+\* {<<redirect page, target page>>} of a world (independent of the flags)
+\* (computed page by page: every written name is resolved once)
+IncRel(W, x) ==
+  IF x THEN UNION { {<<p.title, q>> : q \in {t \in Titles(W) : NoPfx(t) \in p.uses}} : p \in PagesOf(W) }
+  ELSE LET S == RowsOf(W) IN
+       UNION { {<<p.title, r.title>> : r \in {y \in {RefGet(S, w, TplNs, FALSE) : w \in p.uses} : y.found}}
+               : p \in PagesOf(W) }
+\* ... which is the relation Inc, spelled out pair by pair
+IncRelIsInc(W, x) == IncRel(W, x) = {e \in Titles(W) \X Titles(W) : Inc(W, x, e[1], e[2])}
+RedirRel(W) == {<<p.title, p.redirect>> : p \in {q \in PagesOf(W) : q.redirect \in Titles(W)}}
 
-\* least set containing the flagged templates and closed under "includes a member"
-RECURSIVE Lfp(_, _, _)
-Lfp(W, x, M) ==
-  LET M2 == M \cup {p \in Titles(W) : \E q \in M : Inc(W, x, p, q)} IN
-  IF M2 = M THEN M ELSE Lfp(W, x, M2)
-ClosureX(W, x) == Lfp(W, x, Flagged(W))
-Closure(W) == ClosureX(W, FALSE)
+\* least set containing F and closed under "includes a member"
+RECURSIVE LfpR(_, _)
+LfpR(R, M) ==
+  LET M2 == M \cup {e[1] : e \in {x \in R : x[2] \in M}} IN
+  IF M2 = M THEN M ELSE LfpR(R, M2)
 
 \* the same, stated without an iteration (used as a cross-check on small worlds)
-ClosedUnderIncluders(W, X) ==
-  /\ Flagged(W) \subseteq X
-  /\ \A p \in Titles(W) : (\E q \in X : Inc(W, FALSE, p, q)) => p \in X
-IsLeastClosure(W, X) ==
-  /\ ClosedUnderIncluders(W, X)
-  /\ \A Y \in SUBSET Titles(W) : ClosedUnderIncluders(W, Y) => X \subseteq Y
+ClosedUnderIncluders(R, F, X) ==
+  /\ F \subseteq X
+  /\ \A e \in R : e[2] \in X => e[1] \in X
+IsLeastClosure(T, R, F, X) ==
+  /\ ClosedUnderIncluders(R, F, X)
+  /\ \A Y \in SUBSET T : ClosedUnderIncluders(R, F, Y) => X \subseteq Y
 
 \* redirect neighbours of a set: redirects to a member, targets of members
-RedirNb(W, X) ==
-  {p.title : p \in {q \in PagesOf(W) : q.redirect \in X}}
-  \cup {p.redirect : p \in {q \in PagesOf(W) : q.title \in X /\ q.redirect \in Titles(W)}}
+RedirNbR(D, X) == {e[1] : e \in {d \in D : d[2] \in X}} \cup {e[2] : e \in {d \in D : d[1] \in X}}
 
 \* the statement read literally: closure plus its redirect neighbours
-LowerX(W, x) == ClosureX(W, x) \cup RedirNb(W, ClosureX(W, x))
-Lower(W) == LowerX(W, FALSE)
-\* what the unrepaired code computes (names matched as exact strings)
-AsIs(W) == LowerX(W, TRUE)
+LowerR(R, D, F) == LET L == LfpR(R, F) IN L \cup RedirNbR(D, L)
 
 \* the most generous reading ("marked" also meaning the redirect neighbours, which
 \* then propagate again): the least set closed under all three rules.  A marked set
 \* between Lower and Upper does not contradict the statement.
-RECURSIVE FullFix(_, _)
-FullFix(W, M) ==
-  LET M2 == M \cup {p \in Titles(W) : \E q \in M : Inc(W, FALSE, p, q)} \cup RedirNb(W, M) IN
-  IF M2 = M THEN M ELSE FullFix(W, M2)
-Upper(W) == FullFix(W, Flagged(W))
+RECURSIVE FullFixR(_, _, _)
+FullFixR(R, D, M) ==
+  LET M2 == M \cup {e[1] : e \in {x \in R : x[2] \in M}} \cup RedirNbR(D, M) IN
+  IF M2 = M THEN M ELSE FullFixR(R, D, M2)
+
+Closure(W) == LfpR(IncRel(W, FALSE), Flagged(W))
+Lower(W) == LowerR(IncRel(W, FALSE), RedirRel(W), Flagged(W))
+Upper(W) == FullFixR(IncRel(W, FALSE), RedirRel(W), Flagged(W))
+\* what the unrepaired code computes (names matched as exact strings)
+AsIs(W) == LowerR(IncRel(W, TRUE), RedirRel(W), Flagged(W))
 
 (* ------------------------------------------------------------------ *)
 (* the algorithm as coded                                             *)
@@ -108,6 +117,13 @@ AInit(W) ==
   /\ cur = RowsOf(W) /\ com = {} /\ memo = {}
   /\ marked = {} /\ pc = "classify" /\ ci = 1
   /\ imap = {} /\ stack = <<>> /\ todo = {} /\ amemo = {}
+
+\* the same as an action (a new call of analyze_templates on another world)
+AReset(W) ==
+  /\ world' = W
+  /\ cur' = RowsOf(W) /\ com' = {} /\ memo' = {}
+  /\ marked' = {} /\ pc' = "classify" /\ ci' = 1
+  /\ imap' = {} /\ stack' = <<>> /\ todo' = {} /\ amemo' = {}
 
 \* get_page(name, template ns) through the lru_cache; the Page object carries the
 \* need_pre_expand value of the moment it was read
@@ -198,7 +214,7 @@ NeverOvermarks ==
 \* a page is pushed at most once (hence termination within |pages| pops)
 PushedOnce == \A j, k \in 1..Len(stack) : j # k => stack[j] # stack[k]
 \* the iterative and the declarative definitions of the closure coincide
-LfpIsLeast == IsLeastClosure(world, Closure(world))
+LfpIsLeast == IncRelIsInc(world, FALSE) /\ IncRelIsInc(world, TRUE) /\ IsLeastClosure(Titles(world), IncRel(world, FALSE), Flagged(world), Closure(world))
 \* termination (checked under weak fairness of the algorithm's steps)
 Terminates == <>Done
 =============================================================================
